@@ -72,7 +72,8 @@ def case_st(draw):
         ch = draw(st.lists(st.integers(0, 30), max_size=2))
         if kind == 'add':
             ops.append({'op': 'add', 'rule': draw(st.integers(0, nrule - 1)), 'methods': draw(st.lists(st.sampled_from(METHS), min_size=1, max_size=2, unique=True)),
-                        'name': draw(st.sampled_from([None, None] + NAMEPOOL)), 'overwrite': draw(st.sampled_from([False, False, True])), 'choice': ch})
+                        'name': draw(st.sampled_from([None, None] + NAMEPOOL)), 'overwrite': draw(st.sampled_from([False, False, True])), 'choice': ch,
+                        'mspell': draw(st.sampled_from([0, 0, 0, 1, 2, 3]))})      # the verb spelled upper / lower / capitalised / mixed (names are case-insensitive)
         elif kind == 'remove':
             ops.append({'op': 'remove', 'rule': draw(st.integers(0, nrule - 1)), 'choice': ch})
         elif kind == 'remove_name':
@@ -250,7 +251,9 @@ def run_history(ctx, case, every_step=True, wsgi=True):
             tagno += 1
             tag = 'h%d' % tagno
             try:
-                router.add(text, list(op['methods']), tags.handler(tag), op['name'], overwrite=op['overwrite'])
+                ms = op.get('mspell', 0)
+                spelled = [[m, m.lower(), m.capitalize(), m[:1].lower() + m[1:]][ms] for m in op['methods']]
+                router.add(text, spelled[0] if (ms == 3 and len(spelled) == 1) else spelled, tags.handler(tag), op['name'], overwrite=op['overwrite'])
                 ok, exc = True, None
             except Exception as e:
                 ok, exc = False, e
@@ -491,6 +494,7 @@ def bounded(ctx):
         {'op': 'add', 'rule': 2, 'methods': ['GET'], 'name': 'n1', 'overwrite': False, 'choice': [1]},
         {'op': 'add', 'rule': 3, 'methods': ['POST'], 'name': 'n2', 'overwrite': True, 'choice': []},
         {'op': 'add', 'rule': 4, 'methods': ['GET'], 'name': None, 'overwrite': False, 'choice': []},
+        {'op': 'add', 'rule': 0, 'methods': ['GET'], 'name': None, 'overwrite': False, 'choice': [], 'mspell': 1},       # the verb in lower case
         {'op': 'remove', 'rule': 0, 'choice': []},
         {'op': 'remove', 'rule': 2, 'choice': []},
         {'op': 'remove_name', 'name': 'n1'},
